@@ -507,10 +507,12 @@ func (s *Stream) RawRecv() (data []byte, err error) {
 
 // MsgSend marshals the message with the encoding, writes it, and flushes.
 func (s *Stream) MsgSend(msg drpc.Message, enc drpc.Encoding) (err error) {
+	// this has to be looked at before anything that can block: the send may
+	// have to wait for the first receive, which flushes under the write lock.
+	started := !s.sigs.send.IsSet()
 	s.flush.Do(func() {})
 
 	defer s.checkFinished()
-	started := !s.sigs.send.IsSet()
 	s.write.Lock()
 	defer s.write.Unlock()
 	drpcdebug.Point("stream.msgsend.locked", s.ctx.tr)
